@@ -1,7 +1,7 @@
 (* C09 runner: decodes a case (cls cap bigfuel (bytes...)), runs the reader model of class [cls] on the bytes
-     - as the code is now (cfg_now), with the fuel |f|+1 of the theorems,
+     - as the code is now (cfg_fixed), with the fuel |f|+1 of the theorems,
      - as the code is now, with the large fuel given in the case (only when the first run ended in Hang),
-     - with the proposed fix C09_5 (cfg_fixed), fuel |f|+1,
+     - (third slot: kept for a future candidate fix; currently the first outcome again),
    and encodes the three outcomes. Executable only. *)
 From Coq Require Import List ZArith QArith Bool.
 From Gst Require Import lib.Sx C09.Model C09.Readers C09.Spec.
@@ -33,9 +33,9 @@ Definition is_hang {A} (o : outcome A) : bool := match o with Crashed (Hang _) =
 
 Definition run3 {A} (dump : A -> sx) (wf : A -> bool) (ld : env -> list Z -> outcome A) (cap : Z) (big : nat) (f : list Z) : sx :=
   let n := S (length f) in
-  let o1 := ld (mkEnv cfg_now cap n) f in
-  let o2 := if is_hang o1 then ld (mkEnv cfg_now cap big) f else o1 in
-  let o3 := ld (mkEnv cfg_fixed cap n) f in
+  let o1 := ld (mkEnv cfg_fixed cap n) f in
+  let o2 := if is_hang o1 then ld (mkEnv cfg_fixed cap big) f else o1 in
+  let o3 := o1 in
   L [ofOutcome dump wf o1; ofOutcome dump wf o2; ofOutcome dump wf o3].
 
 Definition run (c : sx) : sx :=
